@@ -6,6 +6,8 @@ BL = TList(TBytes)
 BLS = sort(BL)
 BLL = TList(BL)
 Len = z3.Length
+Imp, And, Or, Not, MP = z3.Implies, z3.And, z3.Or, z3.Not, z3.MultiPattern
+k, l, n = z3.Ints("k l n")
 
 
 def Ext(s, a, l):
@@ -61,11 +63,26 @@ part = specfn("part", [BL, TInt, TInt], BL, py=lambda ids, cap, bs: _part_py(ids
 part.define = lambda ids, cap, bs: part_from(ids, cap, bs, 0)
 
 
+def _gen_split(rnd):
+    lens = [rnd.choice([0, 0, 1, 2, 3, 8]) for _ in range(rnd.choice([0, 1, 2, 3, 4, 6]))]
+    n = sum(lens) + rnd.choice([0, 0, 0, 0, 1, -1])
+    return dict(xbytes=bytes(rnd.getrandbits(8) for _ in range(max(n, 0))), slice_len_list=lens)
+
+
+def _gen_partition(rnd):
+    size = rnd.choice([1, 2, 3, 8, 40])
+    cap = rnd.choice([1, 2, 3, 4, 7, 64, 70])
+    n = rnd.choice([0, 1, 2, 3, cap - 1, cap, cap + 1, 2 * cap, 2 * cap + 1, 20])
+    ids = [bytes([1 + rnd.getrandbits(7)] + [rnd.getrandbits(8) for _ in range(size - 1)]) for _ in range(max(n, 0))]
+    bs = rnd.choice([0, cap * size, cap * size + 1, cap * size + 5, cap * size - 1])
+    return dict(identifier_list=ids, entry_count_in_one_block=cap, identifier_size=size, block_size_bytes=max(bs, 0))
+
+
 # ---- contracts ------------------------------------------------------------------------------------
 DB = "toolkit/database_utils.py:"
 BU = "toolkit/bytes_utils.py:"
 
-contract(DB + "parse_identifiers_from_block_given_identifier_size",
+contract(DB + "parse_identifiers_from_block_given_identifier_size", domains=dict(identifier_size=SMALL),
          params=dict(block=TBytes, identifier_size=TInt),
          returns=BL,
          requires=["identifier_size > 0"],
@@ -78,7 +95,7 @@ contract(DB + "parse_identifiers_from_block_given_identifier_size",
          witness=[dict(block=b"ab\x00\x00", identifier_size=2)],
          props=["C17", "C01"])
 
-contract(DB + "parse_identifiers_from_block_given_entry_count_in_one_block",
+contract(DB + "parse_identifiers_from_block_given_entry_count_in_one_block", domains=dict(entry_count_in_one_block=SMALL),
          params=dict(block=TBytes, entry_count_in_one_block=TInt),
          returns=BL,
          requires=["entry_count_in_one_block > 0", "len(block) // entry_count_in_one_block > 0"],
@@ -88,7 +105,7 @@ contract(DB + "parse_identifiers_from_block_given_entry_count_in_one_block",
 
 contract(DB + "partition_identifiers_to_blocks",
          params=dict(identifier_list=BL, entry_count_in_one_block=TInt, identifier_size=TInt, block_size_bytes=TInt),
-         returns=BL,
+         returns=BL, gen=lambda rnd: _gen_partition(rnd),
          requires=["entry_count_in_one_block > 0", "identifier_size > 0", "block_size_bytes >= 0",
                    "all_len(identifier_list, identifier_size)"],
          raises={"ValueError": dict(
@@ -118,9 +135,6 @@ contract(DB + "partition_identifiers_to_blocks",
 ILS = sort(TList(TInt))
 BLLS = sort(TList(BL))
 il = z3.Const("il", ILS)
-psum_upto = specfn("psum_upto", [TList(TInt), TInt], TInt, py=lambda xs, k: sum(xs[:max(k, 0)]),
-                   doc="sum of the first k elements")
-psum_upto.define = lambda xs, k: z3.If(k <= 0, 0, psum_upto(xs, k - 1) + xs[k - 1])
 all_nonneg_upto = specfn("all_nonneg_upto", [TList(TInt), TInt], TBool, py=lambda xs, k: all(x >= 0 for x in xs[:max(k, 0)]))
 all_nonneg_upto.define = lambda xs, k: z3.If(k <= 0, True, z3.And(xs[k - 1] >= 0, all_nonneg_upto(xs, k - 1)))
 all_nonneg = specfn("all_nonneg", [TList(TInt)], TBool, py=lambda xs: all(x >= 0 for x in xs))
@@ -136,6 +150,22 @@ chunks_from = specfn("chunks_from", [BL, TInt, TInt], TList(BL),
 chunks_from.define = lambda xs, n, i: z3.If(
     z3.Or(n <= 0, i < 0, i >= Len(xs)), z3.Empty(BLLS),
     z3.Concat(z3.Unit(Ext(xs, i, n)), chunks_from(xs, n, i + n)))
+
+k = z3.Int("k")
+lemma("psum_full", [il], psum_upto(il, Len(il)) == isum(il), patterns=None)
+lemma("psum_nonneg", [il, k], Imp(And(all_nonneg_upto(il, k)), psum_upto(il, k) >= 0),
+      patterns=[psum_upto(il, k)], induct=("int", k), inst=[[il, k - 1]])
+lemma("psum_mono", [il, k, l], Imp(And(all_nonneg_upto(il, l), 0 <= k, k <= l), psum_upto(il, k) <= psum_upto(il, l)),
+      patterns=None, induct=("int", l), inst=[[il, k, l - 1]])
+lemma("nonneg_mono", [il, k, l], Imp(And(all_nonneg_upto(il, l), k <= l), all_nonneg_upto(il, k)),
+      patterns=None, induct=("int", l), inst=[[il, k, l - 1]])
+xb = z3.Const("xb", BYTES)
+# the first k pieces join to the prefix of x of length psum(k), provided the cuts stay inside x
+lemma("pieces_join", [xb, il, k],
+      Imp(And(0 <= k, k <= Len(il), all_nonneg_upto(il, k), psum_upto(il, k) <= Len(xb)),
+          And(Len(pieces(xb, il, k)) == k, join(pieces(xb, il, k)) == Ext(xb, 0, psum_upto(il, k)))),
+      patterns=None, induct=("int", k), inst=[[xb, il, k - 1]], uses=["psum_nonneg", "joinr_snoc"],
+      use_inst=[("joinr_snoc", [pieces(xb, il, k - 1), Ext(xb, psum_upto(il, k - 1), il[k - 1])])])
 
 # ---- bytes_utils ------------------------------------------------------------------------------------
 xa, xb = z3.Consts("xa xb", BYTES)
@@ -167,7 +197,7 @@ contract(BU + "bytes_xor",
          witness=[dict(a=b"abc", b=b"xy")], props=["C17", "C15"])
 
 contract(BU + "int_to_bytes",
-         params=dict(x=TInt, output_len=TInt), returns=TBytes,
+         params=dict(x=TInt, output_len=TInt), returns=TBytes, domains=dict(output_len=SMALL),
          requires=["output_len >= -1"],
          raises={"OverflowError": dict(when="x < 0 or (output_len != -1 and x >= pow2(8 * output_len))", iff=True)},
          ensures=["result == i2b(x, output_len if output_len != -1 else (bitlen(x) + 7) // 8)",
@@ -182,29 +212,34 @@ contract(BU + "int_from_bytes",
          witness=[dict(xbytes=b"\x01\x02")], props=["C17"])
 
 contract(BU + "add_leading_zeros",
-         params=dict(xbytes=TBytes, output_len=TInt), returns=TBytes,
+         params=dict(xbytes=TBytes, output_len=TInt), returns=TBytes, domains=dict(output_len=SMALL),
          ensures=["result == zeros(output_len - len(xbytes)) + xbytes",
                   "len(result) == (output_len if output_len > len(xbytes) else len(xbytes))"],
          witness=[dict(xbytes=b"ab", output_len=4)], props=["C17", "C02"])
 
 IL = TList(TInt)
 contract(BU + "split_bytes_given_slice_len",
-         params=dict(xbytes=TBytes, slice_len_list=IL), returns=BL,
+         params=dict(xbytes=TBytes, slice_len_list=IL), returns=BL, gen=lambda rnd: _gen_split(rnd),
          requires=["all_nonneg(slice_len_list)"],
          raises={"ValueError": dict(when="len(xbytes) != isum(slice_len_list)", iff=True)},
          ensures=["len(result) == len(slice_len_list)",
                   "result == pieces(xbytes, slice_len_list, len(slice_len_list))",
                   "join(result) == xbytes"],
          locals={"result": BL},
-         loops={1: dict(invariant=[
-             "0 <= it", "it <= len(slice_len_list)", "len(result) == it",
+         lemmas=["psum_full", "psum_nonneg", "pieces_join"],
+         hints=[("psum_full", ["slice_len_list"]),
+                ("pieces_join", ["xbytes", "slice_len_list", "len(slice_len_list)"])],
+         loops={1: dict(hints=[("nonneg_mono", ["slice_len_list", "it + 1", "len(slice_len_list)"]),
+                               ("nonneg_mono", ["slice_len_list", "it", "len(slice_len_list)"])],
+                        invariant=[
+             "len(result) == it",
              "c == psum_upto(slice_len_list, it)",
              "result == pieces(xbytes, slice_len_list, it)",
          ])},
          witness=[dict(xbytes=b"abcde", slice_len_list=[2, 3])], props=["C17"])
 
 contract("toolkit/list_utils.py:chunks",
-         params=dict(lst=BL, n=TInt), returns=TList(BL),
+         params=dict(lst=BL, n=TInt), returns=TList(BL), domains=dict(n=SMALL),
          requires=["n > 0"],
          ensures=["result == chunks_from(lst, n, 0)"],
          loops={0: dict(invariant=["result + chunks_from(lst, n, i) == chunks_from(lst, n, 0)"])},
